@@ -187,7 +187,8 @@ impl Property for C14 {
     }
     fn check(&self, tapes: &Tapes, st: &mut Stats) -> Result<(), Failure> {
         let p = prepare(tapes, &domain(), &SurfaceCfg::plain());
-        let root = parse_docs(&p.bytes)?;
+        // every second case renders the tree after each document (a cached name must not survive an extension)
+        let root = if tapes.a.first().map(|b| b & 1 == 1).unwrap_or(false) { parse_docs_observed(&p.bytes)? } else { parse_docs(&p.bytes)? };
         let (src, _defs, tree) = render_tree(&root, &Options::quick_xml_de())?;
         let mut counts = BTreeMap::new();
         count_positions(&root, &mut counts);
